@@ -23,7 +23,7 @@ fn case_variants(base: &str) -> Vec<String> {
     let stem = base.trim_end_matches(".local.");
     vec![
         format!("{stem}.local."),
-        format!("{}.local.", stem.to_uppercase()),
+        format!("{}.local.", stem.to_ascii_uppercase()),
         format!(
             "{}.local.",
             stem.chars().enumerate().map(|(i, c)| if i % 2 == 0 { c.to_ascii_uppercase() } else { c }).collect::<String>()
@@ -57,7 +57,7 @@ pub fn scenario(seed: u64, stepping: Option<Stepping>) -> Made {
     let h = w.add_host(ifs.clone());
     let t0 = w.now();
     w.set_ip_check_interval(h, 3600);
-    let base = *rng.pick(&["printer.local.", "nas.local."]);
+    let base = *rng.pick(&["printer.local.", "nas.local.", "\u{c9}cole-Nas.local."]);
     let variants = case_variants(base);
     let other = "unrelated.local.";
     let mut desc = format!("{:?} topo={topo} host={base}", w.stepping);
